@@ -107,6 +107,97 @@ struct Ctx {
     witness_found: bool,
 }
 
+/// Every index INSIDE the tables is in range: type ids nested in types / tuple fields / builtins /
+/// function `type_id`s, tuple ids in types. (`checkAnn` covers the instruction operands.)
+fn tables_closed(bc: &Bytecode) -> Option<String> {
+    use quiver_core::types::Type;
+    let (nt, ntu) = (bc.types.len(), bc.tuples.len());
+    let ty = |what: String, id: usize| if id < nt { None } else { Some(format!("{what}: type id {id} out of {nt}")) };
+    for (i, t) in bc.types.iter().enumerate() {
+        let bad = match t {
+            Type::Tuple(tu) => if *tu < ntu { None } else { Some(format!("type {i} = Tuple({tu}): tuple id out of {ntu}")) },
+            Type::Partial { fields, .. } => fields.iter().find_map(|(n, id)| ty(format!("type {i} = Partial field {n}"), *id)),
+            Type::Callable { parameter, result, receive } => [("parameter", parameter), ("result", result), ("receive", receive)]
+                .into_iter().find_map(|(n, id)| ty(format!("type {i} = Callable {n}"), *id)),
+            Type::Union(vs) => vs.iter().find_map(|id| ty(format!("type {i} = Union member"), *id)),
+            Type::Process { send, receive } => [send, receive].into_iter().flatten().find_map(|id| ty(format!("type {i} = Process"), *id)),
+            _ => None,
+        };
+        if bad.is_some() {
+            return bad;
+        }
+    }
+    for (i, tu) in bc.tuples.iter().enumerate() {
+        if let Some(b) = tu.fields.iter().find_map(|(n, id)| ty(format!("tuple {i} field {n:?}"), *id)) {
+            return Some(b);
+        }
+    }
+    for (i, f) in bc.functions.iter().enumerate() {
+        if let Some(b) = ty(format!("function {i} type_id"), f.type_id) {
+            return Some(b);
+        }
+    }
+    None
+}
+
+/// What the type-bearing parts of every function DENOTE, independent of the numbering: opcode
+/// skeleton, the function's own type, the types its `IsType`s test and the tuples it builds,
+/// rendered structurally. A repackaged program may renumber, it must not change any of these.
+fn denotations(bc: &Bytecode) -> Vec<String> {
+    use quiver_core::format::{format_tuple_info, format_type_by_id};
+    bc.functions
+        .iter()
+        .map(|f| {
+            let mut s = format!("{}|{}|", f.captures, if f.type_id < bc.types.len() { format_type_by_id(bc, f.type_id) } else { "?".into() });
+            for i in &f.instructions {
+                match i {
+                    Instruction::IsType(t) => s.push_str(&format!("IsType<{}>;", if *t < bc.types.len() { format_type_by_id(bc, *t) } else { "?".into() })),
+                    Instruction::Tuple(t) => s.push_str(&format!("Tuple<{}>;", bc.tuples.get(*t).map(|ti| format_tuple_info(bc, ti)).unwrap_or("?".into()))),
+                    // operands that are indices into renumbered tables are not compared here
+                    Instruction::Constant(_) | Instruction::Function(_) | Instruction::Builtin(_) | Instruction::Process(_, _) => {
+                        s.push_str(instr_token(i).split(':').next().unwrap_or(""));
+                        s.push(';');
+                    }
+                    other => {
+                        s.push_str(&instr_token(other));
+                        s.push(';');
+                    }
+                }
+            }
+            s
+        })
+        .collect()
+}
+
+/// The repackaged program's tables are closed and every function in it denotes what some function
+/// of the program as compiled denotes.
+fn check_repackaged(ev: &mut Ev, src: &Source, packaging: &str, original: &Bytecode, repackaged: &Bytecode) {
+    if let Some(what) = tables_closed(repackaged) {
+        ev.violation(&format!("packaging={packaging} kind=table-index-out-of-range"),
+            &format!("tables of {} [{packaging}] hold an index that is out of range: {what}", src.origin),
+            json!({"origin": src.origin, "source": src.text, "packaging": packaging, "what": what}), true);
+        return;
+    }
+    let (a, b) = (original.clone(), repackaged.clone());
+    match catch(move || (denotations(&a), denotations(&b))) {
+        Ok((orig, rep)) => {
+            let have: std::collections::HashSet<&String> = orig.iter().collect();
+            if let Some((fi, d)) = rep.iter().enumerate().find(|(_, d)| !have.contains(d)) {
+                // the closest original (same skeleton up to the first difference) for the report
+                let near = orig.iter().max_by_key(|o| o.chars().zip(d.chars()).take_while(|(x, y)| x == y).count()).cloned().unwrap_or_default();
+                ev.violation(&format!("packaging={packaging} kind=type-denotation-changed"),
+                    &format!("function {fi} of {} [{packaging}] denotes types no function of the program as compiled denotes", src.origin),
+                    json!({"origin": src.origin, "source": src.text, "packaging": packaging, "function": fi,
+                           "repackaged": d.chars().take(600).collect::<String>(), "closest_as_compiled": near.chars().take(600).collect::<String>()}), true);
+            }
+            ev.hit(&format!("denotations-compared:{packaging}"));
+        }
+        Err(p) => ev.violation(&format!("packaging={packaging} kind=type-rendering-panics"),
+            &format!("rendering the types of {} [{packaging}] panics: {}", src.origin, p.lines().next().unwrap_or("")),
+            json!({"origin": src.origin, "source": src.text, "packaging": packaging, "panic": p}), true),
+    }
+}
+
 fn report_reject(ev: &mut Ev, src: &Source, packaging: &str, t: &Tables, c: &Cert) {
     let (f, pc, why) = c.reject.clone().unwrap();
     let kind = why.split(|ch: char| ch == ' ' || ch == ':').next().unwrap_or("rejected").to_string();
@@ -459,6 +550,7 @@ fn process_source(cx: &mut Ctx, ev: &mut Ev, src: &Source, rng: &mut Rng, run_it
     let shaken = catch(|| quiver_core::optimisation::tree_shake(bc.clone(), unit.entry));
     match shaken {
         Ok(sb) => {
+            check_repackaged(ev, src, "tree-shaken", &bc, &sb);
             let t = tables_of(&sb);
             let c = certify(&mut cx.model, &t);
             ev.add("certified-functions:tree-shaken", c.functions as u64);
@@ -498,6 +590,7 @@ fn process_source(cx: &mut Ctx, ev: &mut Ev, src: &Source, rng: &mut Rng, run_it
         if ncaps == 0 {
             match catch(|| quiver_core::optimisation::tree_shake(bc.clone(), fi)) {
                 Ok(sb) => {
+                    check_repackaged(ev, src, "tree-shaken-entry", &bc, &sb);
                     let t = tables_of(&sb);
                     let c = certify(&mut cx.model, &t);
                     ev.add("certified-functions:tree-shaken-entry", c.functions as u64);
@@ -521,6 +614,11 @@ fn process_source(cx: &mut Ctx, ev: &mut Ev, src: &Source, rng: &mut Rng, run_it
     let prefix: Vec<&Bytecode> = idx[..k].iter().map(|&i| &cx.prefixes[i]).collect();
     match merged(&prefix, &bc) {
         Ok(mb) => {
+            if let Some(what) = tables_closed(&mb) {
+                ev.violation("packaging=merged kind=table-index-out-of-range",
+                    &format!("tables of {} [merged] hold an index that is out of range: {what}", src.origin),
+                    json!({"origin": src.origin, "source": src.text, "packaging": "merged", "what": what}), true);
+            }
             let t = tables_of(&mb);
             let c = certify(&mut cx.model, &t);
             ev.add("certified-functions:merged", c.functions as u64);
